@@ -113,3 +113,92 @@ pub(crate) fn residuals_valid(method: u32, po: u32, order: usize, res: &[i64], k
     }
     ok
 }
+
+// ---------------------------------------------------------------- subframes (RFC 9639 §9.2)
+
+pub(crate) const T_CONSTANT: u64 = 0b000000;
+pub(crate) const T_VERBATIM: u64 = 0b000001;
+pub(crate) fn t_fixed(order: u32) -> u64 {
+    0b001000 + order as u64
+}
+pub(crate) fn t_lpc(order: u32) -> u64 {
+    0b100000 + (order as u64 - 1)
+}
+
+/// §9.2.1/§9.2.2: zero pad bit, 6-bit type, wasted-bits flag, unary(k-1) when k > 0.
+/// `has_wasted` fixes the field layout; `wasted` (>= 1 when has_wasted) is a value.
+pub(crate) fn gen_subframe_header<const N: usize>(t: &mut Tape<N>, type_code: u64, has_wasted: bool, wasted: u32) {
+    t.preload(K_U, 1, 0);
+    t.preload(K_U, 6, type_code);
+    if has_wasted {
+        t.preload(K_U, 1, 1);
+        t.preload(K_UN1, 0, (wasted - 1) as u64);
+    } else {
+        t.preload(K_U, 1, 0);
+    }
+}
+
+/// residual of x[i] under the predictor (Σ c[j]·x[i-1-j]) >> shift, i >= order
+pub(crate) fn spec_residual(x: &[i64], i: usize, order: usize, coeff: &[i64], shift: u32) -> i64 {
+    let mut sum: i64 = 0;
+    let mut j = 0;
+    while j < order {
+        // operand order (sample * coefficient): SAT solvers cannot prove 64-bit multiplier
+        // commutativity, so the reference multiplies the way the RFC pseudo-code and every
+        // implementation does
+        sum += x[i - 1 - j] * coeff[j];
+        j += 1;
+    }
+    x[i] - (sum >> shift)
+}
+
+/// §9.2.5 fixed predictor subframe body (after the header): warm-up samples then coded residual.
+/// Returns false when the residuals are not valid 32-bit residuals for the chosen coding.
+pub(crate) fn gen_predicted<const N: usize>(
+    t: &mut Tape<N>,
+    bps: u32,
+    order: usize,
+    coeff: &[i64],
+    shift: u32,
+    lpc: Option<(u32, u32)>, // (precision, shift) written for LPC subframes
+    x: &[i64],
+    method: u32,
+    po: u32,
+    kinds: &[PKind],
+    params: &[u32],
+) -> bool {
+    let mut i = 0;
+    while i < order {
+        t.preload(K_S, bps, x[i] as u64);
+        i += 1;
+    }
+    if let Some((precision, sh)) = lpc {
+        t.preload(K_U, 4, (precision - 1) as u64);
+        t.preload(K_S, 5, sh as u64);
+        let mut j = 0;
+        while j < order {
+            t.preload(K_S, precision, coeff[j] as u64);
+            j += 1;
+        }
+    }
+    let mut res = [0i64; 8];
+    let n = x.len() - order;
+    let mut i = 0;
+    while i < n {
+        res[i] = spec_residual(x, order + i, order, coeff, shift);
+        i += 1;
+    }
+    let ok = residuals_valid(method, po, order, &res[..n], kinds, params);
+    gen_residuals(t, method, po, order, &res[..n], kinds, params);
+    ok
+}
+
+pub(crate) fn fixed_coeffs(order: usize) -> [i64; 4] {
+    let mut c = [0i64; 4];
+    let mut j = 0;
+    while j < order {
+        c[j] = spec::fixed_coeff(order as u32, j as u32);
+        j += 1;
+    }
+    c
+}
